@@ -123,8 +123,8 @@ def run(chk):
     from .. import tlc as tlcmod
     from ..core import MachineryError
     import re
-    r = tlcmod.run_tlc("RegionsSim", "RegionsSim.cfg", workers=1, timeout=600,
-                       simulate="num=%d" % chk.pick(60, 2000), depth=70, seed=chk.seed + 1)
+    r = tlcmod.run_tlc("RegionsSim", "RegionsSim.cfg", workers=1, timeout=3000,
+                       simulate="num=%d" % chk.pick(60, 1200), depth=70, seed=chk.seed + 1)
     chk.jobs.append(dict(job="S", module="RegionsSim", cfg="RegionsSim.cfg", **r.summary()))
     if not r.ok or not r.infos:
         raise MachineryError("simulation of RegionsSim failed: %s" % (r.error or "no behaviour printed"))
